@@ -9,6 +9,7 @@ the model as the oracle; which model runs is compared with the rule (enabled and
 from harness import apicheck as A
 from harness import common as C
 from harness import election as E
+from harness import extract as X
 from harness.props import _api_common as K
 from harness.props import c01
 
@@ -89,6 +90,10 @@ def run_outlier(run, driver, case):
         run.broken.append("model rejected a split case: " + mout["error"])
         mout = None
     A.check_split(run, case, tables, mout, ids, (PROP,))
+
+
+def extract(run):
+    return X.generate("C09")
 
 
 def explore(run, driver, budget):
